@@ -211,3 +211,153 @@ pub proof fn lemma_bitlen_ge2(x: nat)
 }
 
 } // verus!
+
+verus! {
+// ---- signed integers (BInt) as arith_gcd uses them: WRAPPING semantics. The operators are given no overflow precondition
+// and their results are specified modulo 2^(64 N) only (what the optimised build computes); the overflow panics of bnum in
+// overflow-checked builds are therefore NOT obligations of a caller that uses these axioms (stated in evidence for C09).
+
+/// range of the signed view
+#[verifier::external_body]
+pub proof fn axiom_iv_range<const N: usize>(x: BInt<N>)
+    ensures -(pow_w(N as nat) as int) <= 2 * iv(x) < pow_w(N as nat) as int
+{}
+
+#[verifier::external_body]
+pub proof fn axiom_bint_mul<const N: usize>(a: BInt<N>, b: BInt<N>)
+    ensures a.mul_req(b), <BInt<N> as MulSpec<BInt<N>>>::obeys_mul_spec(),
+        super::modarith::cong(iv(a.mul_spec(b)), iv(a) * iv(b), pow_w(N as nat) as int),
+{}
+#[verifier::external_body]
+pub proof fn axiom_bint_add<const N: usize>(a: BInt<N>, b: BInt<N>)
+    ensures a.add_req(b), <BInt<N> as AddSpec<BInt<N>>>::obeys_add_spec(),
+        super::modarith::cong(iv(a.add_spec(b)), iv(a) + iv(b), pow_w(N as nat) as int),
+{}
+#[verifier::external_body]
+pub proof fn axiom_bint_sub<const N: usize>(a: BInt<N>, b: BInt<N>)
+    ensures a.sub_req(b), <BInt<N> as SubSpec<BInt<N>>>::obeys_sub_spec(),
+        super::modarith::cong(iv(a.sub_spec(b)), iv(a) - iv(b), pow_w(N as nat) as int),
+{}
+#[verifier::external_body]
+pub proof fn axiom_bint_neg<const N: usize>(a: BInt<N>)
+    ensures a.neg_req(), <BInt<N> as NegSpec>::obeys_neg_spec(),
+        super::modarith::cong(iv(a.neg_spec()), -iv(a), pow_w(N as nat) as int),
+{}
+
+pub assume_specification<const N: usize> [ <BInt<N> as core::convert::From<i64>>::from ] (x: i64) -> (r: BInt<N>)
+    ensures N >= 1 ==> iv(r) == x as int;
+
+/// reinterpretation of an unsigned value of the same width
+pub assume_specification<const N: usize, const M: usize> [ <BInt<N> as bnum::cast::CastFrom<BUint<M>>>::cast_from ] (x: BUint<M>) -> (r: BInt<N>)
+    ensures N == M ==> super::modarith::cong(iv(r), uv(x) as int, pow_w(N as nat) as int);
+
+pub assume_specification<const N: usize> [ BInt::<N>::is_negative ] (x: BInt<N>) -> (r: bool)
+    ensures r == (iv(x) < 0);
+
+/// absolute value; wraps on the minimum value (release semantics)
+pub assume_specification<const N: usize> [ BInt::<N>::abs ] (x: BInt<N>) -> (r: BInt<N>)
+    ensures 2 * iv(x) != -(pow_w(N as nat) as int) ==> iv(r) == (if iv(x) >= 0 { iv(x) } else { -iv(x) });
+
+#[verifier::external_body]
+pub proof fn axiom_buint_shl_i32<const N: usize>(a: BUint<N>, s: i32)
+    ensures a.shl_req(s) == (0 <= s && (s as int) < 64 * N), <BUint<N> as ShlSpec<i32>>::obeys_shl_spec(),
+        0 <= s && (s as int) < 64 * N ==> uv(a.shl_spec(s)) == (uv(a) * vstd::arithmetic::power2::pow2(s as nat)) % pow_w(N as nat),
+{}
+
+/// i64 gcd of num-integer on non-negative operands
+pub assume_specification [<i64 as num_integer::Integer>::gcd] (a: &i64, b: &i64) -> (r: i64)
+    ensures *a >= 0 && *b >= 0 ==> super::numint::is_gcd(r as int, *a as int, *b as int);
+} // verus!
+
+verus! {
+/// all BUint operator axioms at once, quantified (for operands that are unnamed intermediate values)
+pub proof fn lemma_buint_ops_all<const N: usize>()
+    ensures
+        <BUint<N> as AddSpec<BUint<N>>>::obeys_add_spec(), <BUint<N> as SubSpec<BUint<N>>>::obeys_sub_spec(),
+        <BUint<N> as MulSpec<BUint<N>>>::obeys_mul_spec(), <BUint<N> as DivSpec<BUint<N>>>::obeys_div_spec(),
+        <BUint<N> as RemSpec<BUint<N>>>::obeys_rem_spec(), <BUint<N> as ShlSpec<i32>>::obeys_shl_spec(),
+        <BUint<N> as vstd::std_specs::cmp::PartialOrdSpec<BUint<N>>>::obeys_partial_cmp_spec(),
+        <BUint<N> as vstd::std_specs::cmp::PartialEqSpec<BUint<N>>>::obeys_eq_spec(),
+        forall|a: BUint<N>, b: BUint<N>| (#[trigger] a.add_req(b)) == (uv(a) + uv(b) < pow_w(N as nat)),
+        forall|a: BUint<N>, b: BUint<N>| uv(#[trigger] a.add_spec(b)) == (uv(a) + uv(b)) % pow_w(N as nat),
+        forall|a: BUint<N>, b: BUint<N>| (#[trigger] a.sub_req(b)) == (uv(a) >= uv(b)),
+        forall|a: BUint<N>, b: BUint<N>| uv(a) >= uv(b) ==> uv(#[trigger] a.sub_spec(b)) == uv(a) - uv(b),
+        forall|a: BUint<N>, b: BUint<N>| (#[trigger] a.mul_req(b)) == (uv(a) * uv(b) < pow_w(N as nat)),
+        forall|a: BUint<N>, b: BUint<N>| uv(#[trigger] a.mul_spec(b)) == (uv(a) * uv(b)) % pow_w(N as nat),
+        forall|a: BUint<N>, b: BUint<N>| (#[trigger] a.div_req(b)) == (uv(b) != 0),
+        forall|a: BUint<N>, b: BUint<N>| uv(b) != 0 ==> uv(#[trigger] a.div_spec(b)) == uv(a) / uv(b),
+        forall|a: BUint<N>, b: BUint<N>| (#[trigger] a.rem_req(b)) == (uv(b) != 0),
+        forall|a: BUint<N>, b: BUint<N>| uv(b) != 0 ==> uv(#[trigger] a.rem_spec(b)) == uv(a) % uv(b),
+        forall|a: BUint<N>, s: i32| (#[trigger] a.shl_req(s)) == (0 <= s && (s as int) < 64 * N),
+        forall|a: BUint<N>, b: BUint<N>| (#[trigger] a.partial_cmp_spec(&b)) == Some(if uv(a) < uv(b) { core::cmp::Ordering::Less } else if uv(a) == uv(b) { core::cmp::Ordering::Equal } else { core::cmp::Ordering::Greater }),
+        forall|a: BUint<N>, b: BUint<N>| (#[trigger] a.eq_spec(&b)) == (uv(a) == uv(b)),
+{
+    let z = arbitrary::<BUint<N>>();
+    axiom_buint_add(z, z); axiom_buint_sub(z, z); axiom_buint_mul(z, z); axiom_buint_div(z, z); axiom_buint_rem(z, z);
+    axiom_buint_shl_i32(z, 0i32); axiom_buint_cmp(z, z); axiom_buint_eq(z, z);
+    assert forall|a: BUint<N>, b: BUint<N>| (#[trigger] a.add_req(b)) == (uv(a) + uv(b) < pow_w(N as nat)) by { axiom_buint_add(a, b); }
+    assert forall|a: BUint<N>, b: BUint<N>| uv(#[trigger] a.add_spec(b)) == (uv(a) + uv(b)) % pow_w(N as nat) by { axiom_buint_add(a, b); }
+    assert forall|a: BUint<N>, b: BUint<N>| (#[trigger] a.sub_req(b)) == (uv(a) >= uv(b)) by { axiom_buint_sub(a, b); }
+    assert forall|a: BUint<N>, b: BUint<N>| uv(a) >= uv(b) implies uv(#[trigger] a.sub_spec(b)) == uv(a) - uv(b) by { axiom_buint_sub(a, b); }
+    assert forall|a: BUint<N>, b: BUint<N>| (#[trigger] a.mul_req(b)) == (uv(a) * uv(b) < pow_w(N as nat)) by { axiom_buint_mul(a, b); }
+    assert forall|a: BUint<N>, b: BUint<N>| uv(#[trigger] a.mul_spec(b)) == (uv(a) * uv(b)) % pow_w(N as nat) by { axiom_buint_mul(a, b); }
+    assert forall|a: BUint<N>, b: BUint<N>| (#[trigger] a.div_req(b)) == (uv(b) != 0) by { axiom_buint_div(a, b); }
+    assert forall|a: BUint<N>, b: BUint<N>| uv(b) != 0 implies uv(#[trigger] a.div_spec(b)) == uv(a) / uv(b) by { axiom_buint_div(a, b); }
+    assert forall|a: BUint<N>, b: BUint<N>| (#[trigger] a.rem_req(b)) == (uv(b) != 0) by { axiom_buint_rem(a, b); }
+    assert forall|a: BUint<N>, b: BUint<N>| uv(b) != 0 implies uv(#[trigger] a.rem_spec(b)) == uv(a) % uv(b) by { axiom_buint_rem(a, b); }
+    assert forall|a: BUint<N>, s: i32| (#[trigger] a.shl_req(s)) == (0 <= s && (s as int) < 64 * N) by { axiom_buint_shl_i32(a, s); }
+    assert forall|a: BUint<N>, b: BUint<N>| (#[trigger] a.partial_cmp_spec(&b)) == Some(if uv(a) < uv(b) { core::cmp::Ordering::Less } else if uv(a) == uv(b) { core::cmp::Ordering::Equal } else { core::cmp::Ordering::Greater }) by { axiom_buint_cmp(a, b); }
+    assert forall|a: BUint<N>, b: BUint<N>| (#[trigger] a.eq_spec(&b)) == (uv(a) == uv(b)) by { axiom_buint_eq(a, b); }
+}
+
+/// all BInt operator axioms at once (wrapping semantics: no overflow precondition, results modulo 2^(64 N))
+pub proof fn lemma_bint_ops_all<const N: usize>()
+    ensures
+        <BInt<N> as AddSpec<BInt<N>>>::obeys_add_spec(), <BInt<N> as SubSpec<BInt<N>>>::obeys_sub_spec(),
+        <BInt<N> as MulSpec<BInt<N>>>::obeys_mul_spec(), <BInt<N> as NegSpec>::obeys_neg_spec(),
+        forall|a: BInt<N>, b: BInt<N>| #[trigger] a.add_req(b),
+        forall|a: BInt<N>, b: BInt<N>| #[trigger] a.sub_req(b),
+        forall|a: BInt<N>, b: BInt<N>| #[trigger] a.mul_req(b),
+        forall|a: BInt<N>| #[trigger] a.neg_req(),
+        forall|a: BInt<N>, b: BInt<N>| super::modarith::cong(iv(#[trigger] a.add_spec(b)), iv(a) + iv(b), pow_w(N as nat) as int),
+        forall|a: BInt<N>, b: BInt<N>| super::modarith::cong(iv(#[trigger] a.sub_spec(b)), iv(a) - iv(b), pow_w(N as nat) as int),
+        forall|a: BInt<N>, b: BInt<N>| super::modarith::cong(iv(#[trigger] a.mul_spec(b)), iv(a) * iv(b), pow_w(N as nat) as int),
+        forall|a: BInt<N>| super::modarith::cong(iv(#[trigger] a.neg_spec()), -iv(a), pow_w(N as nat) as int),
+{
+    let z = arbitrary::<BInt<N>>();
+    axiom_bint_add(z, z); axiom_bint_sub(z, z); axiom_bint_mul(z, z); axiom_bint_neg(z);
+    assert forall|a: BInt<N>, b: BInt<N>| #[trigger] a.add_req(b) by { axiom_bint_add(a, b); }
+    assert forall|a: BInt<N>, b: BInt<N>| #[trigger] a.sub_req(b) by { axiom_bint_sub(a, b); }
+    assert forall|a: BInt<N>, b: BInt<N>| #[trigger] a.mul_req(b) by { axiom_bint_mul(a, b); }
+    assert forall|a: BInt<N>| #[trigger] a.neg_req() by { axiom_bint_neg(a); }
+    assert forall|a: BInt<N>, b: BInt<N>| super::modarith::cong(iv(#[trigger] a.add_spec(b)), iv(a) + iv(b), pow_w(N as nat) as int) by { axiom_bint_add(a, b); }
+    assert forall|a: BInt<N>, b: BInt<N>| super::modarith::cong(iv(#[trigger] a.sub_spec(b)), iv(a) - iv(b), pow_w(N as nat) as int) by { axiom_bint_sub(a, b); }
+    assert forall|a: BInt<N>, b: BInt<N>| super::modarith::cong(iv(#[trigger] a.mul_spec(b)), iv(a) * iv(b), pow_w(N as nat) as int) by { axiom_bint_mul(a, b); }
+    assert forall|a: BInt<N>| super::modarith::cong(iv(#[trigger] a.neg_spec()), -iv(a), pow_w(N as nat) as int) by { axiom_bint_neg(a); }
+}
+} // verus!
+
+verus! {
+/// linear forms of wrapping BInt products (for unnamed intermediate values)
+pub proof fn lemma_bint_lin_all<const N: usize>()
+    ensures
+        forall|f1: BInt<N>, a: BInt<N>, f2: BInt<N>, c: BInt<N>| super::modarith::cong(iv(#[trigger] f1.mul_spec(a).add_spec(f2.mul_spec(c))), iv(f1) * iv(a) + iv(f2) * iv(c), pow_w(N as nat) as int),
+        forall|f1: BInt<N>, a: BInt<N>, b: BInt<N>| super::modarith::cong(iv(#[trigger] f1.mul_spec(a).sub_spec(b)), iv(f1) * iv(a) - iv(b), pow_w(N as nat) as int),
+        forall|f1: BInt<N>, a: BInt<N>, b: BInt<N>| super::modarith::cong(iv(#[trigger] b.sub_spec(f1.mul_spec(a))), iv(b) - iv(f1) * iv(a), pow_w(N as nat) as int),
+{
+    let m = pow_w(N as nat) as int;
+    lemma_pow_w_pos(N as nat);
+    assert forall|f1: BInt<N>, a: BInt<N>, f2: BInt<N>, c: BInt<N>| super::modarith::cong(iv(#[trigger] f1.mul_spec(a).add_spec(f2.mul_spec(c))), iv(f1) * iv(a) + iv(f2) * iv(c), m) by {
+        axiom_bint_mul(f1, a); axiom_bint_mul(f2, c); axiom_bint_add(f1.mul_spec(a), f2.mul_spec(c));
+        super::modarith::lemma_cong_add(iv(f1.mul_spec(a)), iv(f1) * iv(a), iv(f2.mul_spec(c)), iv(f2) * iv(c), m);
+    }
+    assert forall|f1: BInt<N>, a: BInt<N>, b: BInt<N>| super::modarith::cong(iv(#[trigger] f1.mul_spec(a).sub_spec(b)), iv(f1) * iv(a) - iv(b), m) by {
+        axiom_bint_mul(f1, a); axiom_bint_sub(f1.mul_spec(a), b);
+        super::modarith::lemma_cong_add(iv(f1.mul_spec(a)), iv(f1) * iv(a), iv(b), iv(b), m);
+    }
+    assert forall|f1: BInt<N>, a: BInt<N>, b: BInt<N>| super::modarith::cong(iv(#[trigger] b.sub_spec(f1.mul_spec(a))), iv(b) - iv(f1) * iv(a), m) by {
+        axiom_bint_mul(f1, a); axiom_bint_sub(b, f1.mul_spec(a));
+        super::modarith::lemma_cong_add(iv(b), iv(b), iv(f1.mul_spec(a)), iv(f1) * iv(a), m);
+    }
+}
+} // verus!
